@@ -26,7 +26,7 @@ MStart == /\ ~inMeasure /\ Len(measures) < MaxMeasures
           /\ StartMeasure([number |-> "m"]) /\ inMeasure' = TRUE /\ Count
 MEnd == /\ inMeasure /\ EndMeasure /\ inMeasure' = FALSE /\ Count
 MDivs == /\ inMeasure /\ \E d \in {1, 2, 3} : Divisions([d |-> d]) /\ UNCHANGED inMeasure /\ Count
-MNote == /\ inMeasure
+MNote == /\ inMeasure /\ divs >= 1
          /\ \E d \in Durs, chord \in {0, 1}, grace \in {0, 1}, rest \in {0, 1}, p \in Pitches, ts \in {0, 1}, te \in {0, 1} :
                /\ (chord = 1 => (Len(notes) > 0 /\ rest = 0))
                /\ (rest = 1 => (ts = 0 /\ te = 0 /\ grace = 0))
@@ -38,10 +38,10 @@ MNote == /\ inMeasure
                /\ (te = 1 => (ts = 1 \/ OpenIdx(<<p[1], p[2], p[3]>>) = 0))
                /\ Note(NoteEv(d, chord, grace, rest, p, ts, te))
          /\ UNCHANGED inMeasure /\ Count
-MBackup == /\ inMeasure
+MBackup == /\ inMeasure /\ divs >= 1
            /\ \E d \in Durs : RLeq(mstart, RSub(pos, Q(d))) /\ Backup([d |-> d])
            /\ UNCHANGED inMeasure /\ Count
-MForward == /\ inMeasure /\ \E d \in Durs : Forward([d |-> d]) /\ UNCHANGED inMeasure /\ Count
+MForward == /\ inMeasure /\ divs >= 1 /\ \E d \in Durs : Forward([d |-> d]) /\ UNCHANGED inMeasure /\ Count
 MNext == n < MaxEvents /\ (MStart \/ MEnd \/ MDivs \/ MNote \/ MBackup \/ MForward)
 MSpec == MInit /\ [][MNext]_mvars
 
